@@ -377,7 +377,8 @@ def grammar_number_bindings(fn):
                 "RepExact", "RepMin", "RepMax", "RepMinMax", "PeekSlice"):
             for p in x["pats"]:
                 for b in walk(p):
-                    if b.get("k") == "PBind" and b.get("ty", "").lstrip("&") in INT_TYPES:
+                    bt = b.get("ty", "").lstrip("&") if b.get("k") == "PBind" else ""
+                    if bt in INT_TYPES or (bt.startswith("core::option::Option<") and bt[len("core::option::Option<"):-1] in INT_TYPES):
                         ids[b["id"]] = b["name"]
     return ids
 
@@ -420,8 +421,39 @@ def arith(rep, meta, sfx):
     r.instance("positive-control", "", "synthetic `max - min` matched: %s" % bool(ctl_hit))
     if not ctl_hit:
         r.violation("positive-control", "", "the subtraction matcher no longer recognises its control example")
-    for fn in scope(meta):
+    # grammar numbers handed to a helper stay grammar numbers: its parameters (and what it unwraps from an
+    # `Option<integer>` parameter) are tracked one call deep
+    handed = {}
+    fns_all = scope(meta)
+    for fn in fns_all:
+        ids0 = grammar_number_bindings(fn)
+        if not ids0:
+            continue
+        for x in walk(fn["body"]):
+            if kind(x) in ("Call", "MethodCall") and isinstance(callee(x), str) and callee(x).startswith("pest_meta::"):
+                h = meta.fn(callee(x))
+                if h is None or h is fn or h.get("body") is None:
+                    continue
+                args = hirq.call_args(x)
+                for i, a in enumerate(args):
+                    if hirq.local_id(a) in ids0 and i < len(h["params"]) and h["params"][i].get("k") == "PBind":
+                        handed.setdefault(h["path"], {})[h["params"][i]["id"]] = h["params"][i]["name"]
+    for fn in fns_all:
         ids = grammar_number_bindings(fn)
+        extra = handed.get(fn["path"], {})
+        if extra:
+            ids = dict(ids)
+            ids.update(extra)
+            for m_ in walk(fn["body"]):
+                if kind(m_) == "Match" and hirq.local_id(m_["scrut"]) in extra:
+                    for arm in m_["arms"]:
+                        for b_ in walk(arm["pat"]):
+                            if b_.get("k") == "PBind" and str(b_.get("ty", "")).lstrip("&") in INT_TYPES:
+                                ids[b_["id"]] = b_["name"]
+                if m_.get("k") in ("Let", "LetExpr") and m_.get("init") is not None and hirq.local_id(m_["init"]) in extra:
+                    for b_ in walk(m_["pat"]):
+                        if b_.get("k") == "PBind" and str(b_.get("ty", "")).lstrip("&") in INT_TYPES:
+                            ids[b_["id"]] = b_["name"]
         if not ids:
             continue
         ctx = hirq.Ctx(fn)
